@@ -488,3 +488,47 @@ V('uni-getitem-base-lost', U, "                    return Atom(x.base, self.mapp
 V('uni-getitem-silent-get', U, "                if x.feature in self.mapping:\n                    return Atom(x.base, self.mapping[x.feature])\n                else:\n                    return x",
   "                return Atom(x.base, self.mapping.get(x.feature, x.feature))", ['C03', 'C04', 'C06'], expect='silent')
 V('uni-loop-skips-bound', U, "            if x_feature.unifies(y_feature):", "            if x_feature in self.mapping:\n                continue\n            if x_feature.unifies(y_feature):", ['C03', 'C04', 'C06'])
+
+# ---------------------------------------------------------------- rounds 6 and 7 of seeded changes: the rules added there
+V('cat-feature-lowercased', CAT, "        return UnaryFeature(text)", "        if text != 'X':\n            text = text.lower()\n        return UnaryFeature(text)", ['C05'])
+V('jigg-root-by-coverage', 'depccg/printer/jigg_xml.py', "        res[0].set('root', 'true')\n", "        for span_ in res:\n            if span_.get('begin') == '0' and span_.get('end') == str(len(tree)):\n                span_.set('root', 'true')\n", ['C15'])
+V('jigg-root-silent-rename', 'depccg/printer/jigg_xml.py', "        id, _ = traverse(tree)\n        res.set('root', str(id))\n        res[0].set('root', 'true')", "        root_id, _ = traverse(tree)\n        res.set('root', str(root_id))\n        res[0].set('root', 'true')", ['C15', 'C07'], expect='silent')
+V('jigg-reader-cat-from-token', 'depccg/tools/reader.py', "            else:\n                cat = Category.parse(attrib['category'])\n                word = try_get_surface(tokens[attrib['terminal']])",
+  "            else:\n                cat = Category.parse(tokens[attrib['terminal']].get('cat', attrib['category']))\n                word = try_get_surface(tokens[attrib['terminal']])", ['C15'])
+V('h-fill-skips-tags', H, "        for (unsigned category_id = 0; category_id < config->num_tags; category_id++)\n            scored_cats[token_id].emplace(tag_in_scores(token_id, category_id), category_id);",
+  "        for (unsigned category_id = 0; category_id < config->num_tags; category_id++)\n        {\n            if (length == 1 && possible_root_cats.count(category_id) == 0)\n                continue;\n            scored_cats[token_id].emplace(tag_in_scores(token_id, category_id), category_id);\n        }", ['C16', 'C01'])
+V('h-budget-preincrement', H, "    for (unsigned s = 0; s < config->max_step && goal.size() < config->nbest && agenda.size(); s++)\n    {",
+  "    unsigned s = 0;\n    while (goal.size() < config->nbest && agenda.size())\n    {\n        if (++s >= config->max_step)\n            break;", ['C01', 'C11'])
+V('h-budget-silent-postincrement', H, "    for (unsigned s = 0; s < config->max_step && goal.size() < config->nbest && agenda.size(); s++)\n    {",
+  "    unsigned s = 0;\n    while (goal.size() < config->nbest && agenda.size())\n    {\n        if (s++ >= config->max_step)\n            break;", ['C01', 'C02', 'C11'], expect='silent')
+V('pyx-one-word-shortcut', 'depccg/parsing.pyx', "        results = []\n        scores = []\n        finalizer_args = {",
+  "        if length == 1:\n            all_results.append([ScoredTree(tree=Tree.make_terminal(tokens[0], categories_[0]), score=0.0)])\n            continue\n\n        results = []\n        scores = []\n        finalizer_args = {", ['C02', 'C11'])
+V('pyx-max-length-named', 'depccg/parsing.pyx', "    process_id=0,\n    **kwargs\n", "    process_id=0,\n    max_length=250,\n    **kwargs\n", ['C11', 'C01'])
+V('py-pruning-widened', 'depccg/parsing.py', "        'pruning_size': pruning_size,", "        'pruning_size': max(pruning_size, nbest),", ['C02', 'C16', 'C01'])
+V('printer-format-on-body', 'depccg/printer/__init__.py', "                print(header.format(sentence_index, log_prob), file=file)\n                print(formatter(tree), file=file)",
+  "                print('\\n'.join((header, formatter(tree))).format(sentence_index, log_prob), file=file)", ['C08', 'C07', 'C19'])
+V('printer-silent-joined-header', 'depccg/printer/__init__.py', "                print(header.format(sentence_index, log_prob), file=file)\n                print(formatter(tree), file=file)",
+  "                print(header.format(sentence_index, log_prob) + '\\n' + formatter(tree), file=file)", ['C08', 'C18'], expect='silent')
+V('lang-thread-local', 'depccg/lang.py', "GLOBAL_LANG_NAME = 'en'\n", "import threading\nGLOBAL_LANG_NAME = 'en'\n_config = threading.local()\n", ['C12'], expect='silent')
+V2('lang-thread-local-used', [('depccg/lang.py', "GLOBAL_LANG_NAME = 'en'\n", "import threading\nGLOBAL_LANG_NAME = 'en'\n_config = threading.local()\n", 1),
+                              ('depccg/lang.py', "    global GLOBAL_LANG_NAME\n", "", 1),
+                              ('depccg/lang.py', "    GLOBAL_LANG_NAME = lang\n", "    _config.lang = lang\n", 1),
+                              ('depccg/lang.py', "    return GLOBAL_LANG_NAME\n", "    return getattr(_config, 'lang', GLOBAL_LANG_NAME)\n", 1)], ['C12'])
+V('tree-reduce-drops-head', 'depccg/tree.py', "    @staticmethod\n    def make_terminal(", "    def __reduce__(self):\n        return (Tree, (self.cat, self.children, self.op_string, self.op_symbol))\n\n    @staticmethod\n    def make_terminal(", ['C12', 'C11'])
+V('tree-reduce-silent-complete', 'depccg/tree.py', "    @staticmethod\n    def make_terminal(", "    def __reduce__(self):\n        return (Tree, (self.cat, self.children, self.op_string, self.op_symbol, self.head_is_left))\n\n    @staticmethod\n    def make_terminal(", ['C12', 'C11'], expect='silent')
+V('json-token-not-copied', 'depccg/printer/my_json.py', "            res = dict(node.token)", "            res = node.token", ['C19', 'C18'])
+V('en-type-raised-opposite-slashes', 'depccg/grammar/en.py', "        x.right.is_functor and x.right.left == x.left", "        x.right.is_functor and x.right.slash != x.slash and x.right.left == x.left", ['C03'])
+V('cat-conj-dropped', CAT, "                    assert buffer.pop() == ']'\n", "                    assert buffer.pop() == ']'\n                    if feature == 'conj':\n                        feature = UnaryFeature()\n", ['C05', 'C08'])
+V('cat-open-bracket-case-lost', CAT, "            elif item in '(<':", "            elif item in '<':", ['C05'])
+V('reader-dispatch-any-suffix', 'depccg/tools/reader.py', "    elif filename.endswith('.ptb'):", "    elif '.ptb' in filename:", ['C08', 'C20'])
+V('reader-ptb-holds-lines', 'depccg/tools/reader.py', "        else:\n            tree, tokens = _parse_ptb(line)\n            name = name0 or f'ID={i}'\n            yield ReaderResult(name, tokens, tree)",
+  "        elif line.count('(') != line.count(')'):\n            continue\n        else:\n            tree, tokens = _parse_ptb(line)\n            name = name0 or f'ID={i}'\n            yield ReaderResult(name, tokens, tree)", ['C20'])
+V('prolog-skips-placeholder', 'depccg/printer/prolog.py', "            for tree, _ in trees:\n                print(_prolog_string(tree, sentence_index), file=output)",
+  "            for tree, score_ in trees:\n                if score_ == float('-inf'):\n                    continue\n                print(_prolog_string(tree, sentence_index), file=output)", ['C07'])
+V('ccg2lambda-element-truth', 'depccg/semantics/ccg2lambda/ccg2lambda_tools.py', "    ccg_tree = build_ccg_tree(ccg_flat_tree)\n", "    ccg_tree = build_ccg_tree(ccg_flat_tree)\n    if not ccg_tree:\n        raise ValueError('no tree')\n", ['C15'])
+V('ccg2lambda-silent-is-none', 'depccg/semantics/ccg2lambda/ccg2lambda_tools.py', "    ccg_tree = build_ccg_tree(ccg_flat_tree)\n", "    ccg_tree = build_ccg_tree(ccg_flat_tree)\n    if ccg_tree is None:\n        raise ValueError('no tree')\n", ['C15'], expect='silent')
+V('html-timestamp', 'depccg/printer/html.py', "    return _MATHML_MAIN.format(result)", "    import time\n    result += '<p>%s</p>' % time.time()\n    return _MATHML_MAIN.format(result)", ['C18'])
+V('to-string-set-of-trees', 'depccg/printer/__init__.py', "    if format in ('jigg_xml_ccg2lambda', 'ccg2lambda'):\n        lang = get_global_language()",
+  "    nbest_trees = [sorted(set(trees), key=lambda t: t.score, reverse=True) for trees in nbest_trees]\n    if format in ('jigg_xml_ccg2lambda', 'ccg2lambda'):\n        lang = get_global_language()", ['C18'])
+V('argparse-beta-twice', 'depccg/argparse.py', "    parser.set_defaults(func=lambda _: parser.print_help())\n    subparsers = parser.add_subparsers()", "    parser.set_defaults(func=lambda _: parser.print_help())\n    parser.add_argument('--beta', default=0.00001, type=float)\n    subparsers = parser.add_subparsers()", ['C16'])
+V('ja-unary-table-three-args', 'depccg/models/unary_rules.ja.jsonnet', "    ['S[mod=adn,form=imp,fin=f]',", "    ['((S[mod=adv,form=cont,fin=f]\\\\NP[case=ga,mod=nm,fin=f])\\\\NP[case=ni,mod=nm,fin=f])\\\\NP[case=o,mod=nm,fin=f]', 'S[mod=X1,form=X2,fin=X3]/S[mod=X1,form=X2,fin=X3]'],\n    ['S[mod=adn,form=imp,fin=f]',", ['C04'])
